@@ -24,7 +24,7 @@ func checkC16(c *Ctx) {
 
 	c.Rule("C16/R6", "level-by-level header walk: no slice in the renderers is truncated and refilled in place while another loop-carried variable still holds the same backing array and is being read (the next level must be built in fresh storage)")
 	c.Rule("C16/R8", "digit order: wherever a renderer writes a number digit by digit (footnote marks, spreadsheet column names), digits peeled off least-significant first are stored from the end of the buffer backwards, or the buffer is reversed afterwards")
-	c.Rule("C16/R9", "CSV cell references: a closure of ToCSV that derives a cell reference from the length of the row under assembly is called, inside the column loops, only after the padding closure on every path of the iteration")
+	c.Rule("C16/R9", "CSV cell references: a closure of ToCSV that derives a cell reference from the length of the row under assembly is called, inside the column loops, only after the padding closure on every path of the iteration; and no value is appended to the row after a conditionally appended one of the same iteration without a padding call in between")
 	c.Rule("C16/R7", "shrink marks stay inside the table built so far: every column index passed to SetShrink is below the layout's current column on the path that reaches the call")
 	p := mustLoad(c, loadOpts{}, "./"+ttabRel, "./"+btabRel, "./benchproc", "./benchmath", "./benchfmt", "./benchunit")
 	c16Margins(c, p)
@@ -170,6 +170,106 @@ func c16CSVRefs(c *Ctx, p *Prog) {
 		}
 	}
 	c.Floor(R, "cell references taken inside the column loops", n, 1)
+	// column placement: a value appended after a conditional append of the same iteration lands in a column that depends
+	// on whether the earlier value was present — unless the row was padded to an absolute column in between
+	var rowSlot *ssa.Alloc
+	eachInstr(fn, func(_ *ssa.BasicBlock, in ssa.Instruction) {
+		if al, ok := in.(*ssa.Alloc); ok {
+			if pt, ok := al.Type().(*types.Pointer); ok && isStringSlice(pt.Elem()) && al.Heap {
+				rowSlot = al
+			}
+		}
+	})
+	if rowSlot == nil {
+		return
+	}
+	type at struct {
+		b   *ssa.BasicBlock
+		idx int
+		in  ssa.Instruction
+	}
+	na := 0
+	for _, lp := range loops {
+		var appends, pads []at
+		for b := range lp.Blocks {
+			// innermost loop only
+			inner := false
+			for _, l2 := range loops {
+				if l2 != lp && l2.Blocks[b] && len(l2.Blocks) < len(lp.Blocks) {
+					inner = true
+				}
+			}
+			if inner {
+				continue
+			}
+			for i, ins := range b.Instrs {
+				if st, ok := ins.(*ssa.Store); ok && st.Addr == ssa.Value(rowSlot) {
+					if call, ok := st.Val.(*ssa.Call); ok {
+						if bi, ok := call.Call.Value.(*ssa.Builtin); ok && bi.Name() == "append" {
+							appends = append(appends, at{b, i, ins})
+						}
+					}
+				}
+				if call, ok := ins.(*ssa.Call); ok && in(padders, closureOf(call)) {
+					pads = append(pads, at{b, i, ins})
+				}
+			}
+		}
+		if len(pads) == 0 {
+			continue
+		}
+		before := func(x, y at) bool { // x executes before y on every path to y
+			if x.b == y.b {
+				return x.idx < y.idx
+			}
+			return x.b.Dominates(y.b)
+		}
+		canReach := func(x, y at) bool {
+			if x.b == y.b {
+				return x.idx < y.idx
+			}
+			seen := map[*ssa.BasicBlock]bool{}
+			work := append([]*ssa.BasicBlock(nil), x.b.Succs...)
+			for len(work) > 0 {
+				b := work[len(work)-1]
+				work = work[:len(work)-1]
+				if seen[b] || !lp.Blocks[b] || b == lp.Header {
+					continue
+				}
+				seen[b] = true
+				if b == y.b {
+					return true
+				}
+				work = append(work, b.Succs...)
+			}
+			return false
+		}
+		for _, a2 := range appends {
+			// the padding in force at a2: the latest pad that precedes it on every path
+			var P *at
+			for i := range pads {
+				pd := pads[i]
+				if before(pd, a2) && (P == nil || before(*P, pd)) {
+					P = &pads[i]
+				}
+			}
+			if P == nil {
+				continue
+			}
+			na++
+			shifted := ""
+			for _, a1 := range appends {
+				if a1.in == a2.in || before(a1, a2) {
+					continue // the same append, or one that always happens
+				}
+				if canReach(*P, a1) && canReach(a1, a2) {
+					shifted = p.pos(a1.in.Pos())
+				}
+			}
+			c.Check(shifted == "", R, fmt.Sprintf("csv-columns:append#%d", na), p.pos(a2.in.Pos()), "appended at a column fixed by the padding before it", "this value is appended after a value that is only sometimes present (appended at "+shifted+") without the row being padded to an absolute column in between: when the earlier value is missing — a column without a geomean of its own — the later one slides one column to the left, so the delta appears under CI in CSV while the text rendering keeps it under 'vs base'")
+		}
+	}
+	c.Floor(R, "appends placed by a preceding padding call", na, 3)
 }
 
 // c16Digits (C16/R8): footnote marks and spreadsheet column names are numbers written digit by digit.
